@@ -25,6 +25,38 @@ CLAIMED = {
         design="§5 C13"),
 }
 
+CLAIMED["C18"] = dict(
+    text=("Lean theorems about Adeu.Init.handleInit (model of handle_init as a list of file-system operations, final "
+          "write byte by byte): C18_crash_safe (every prior state, every entry/mode, every crash point k: previous bytes in "
+          "config or backup), C18_success_json, C18_failure_untouched, C18_only_adeu_changed, C18_idempotent, "
+          "C18_second_run_same_bytes. Tie: real handle_init runs in a temp dir for generated prior states x both modes; "
+          "final bytes and outcome equal the model's (json.dump re-implemented in Lean, byte for byte); a crash is "
+          "injected at every intercepted file-system event (incl. half copies / half writes) and the observed "
+          "directory must be a crash state of the model; independent oracle on the directory contents."),
+    note=NOTE_COMMON + "OS behaviour below the step model (caches, fsync, torn writes) and same-second backup name "
+         "collisions are not modelled; Python's UTF-8 decoding and json.loads are parameters.",
+    technique="Lean 4 proof over an operation-list model + crash-point injection correspondence",
+    design="§5 C18")
+CLAIMED["C05"] = dict(
+    text=("Lean theorems about Adeu.Doc.normalize (model of normalize_docx): C05_normalize_canon (canonical content "
+          "stream of every story unchanged: text, per-character format, revisions with id/author/date, anchors, "
+          "non-text content, order), C05_paragraph_canon, C05_merge_adjacent_identical, C05_idempotent. Tie: for every "
+          "generated document RedlineEngine(bytes).save_to_stream() read back by an independent reader equals the "
+          "model's normalize(d) including run boundaries; independent canonical-stream oracle."),
+    note=NOTE_COMMON + "python-docx load/save is modelled as the identity on the abstract document (checked per case).",
+    technique="Lean 4 proof (functional induction on the coalescing function, mutual induction over blocks) + differential correspondence",
+    design="§5 C05")
+CLAIMED["C03"] = dict(
+    text=("Lean theorem C03_text_eq: for every document and both views the text indexed by the engine (model of "
+          "DocumentMapper) equals the text the client reads (model of extract_text_from_stream), proved by a simulation "
+          "between the two paragraph state machines and induction over blocks/tables/parts; C03_spans_partition. Tie: "
+          "both models are compared with the real reader and mapper on every generated document (both views); oracle: "
+          "reader text == engine text, spans partition the text and real spans point into their run. The clause 'an "
+          "indexed edit changes exactly the addressed characters' is decided with the engine checks (C01/C02/C12)."),
+    note=NOTE_COMMON + "ids are non-empty; style-id -> style-name table is the generator's style sheet; fuzzy regex not involved.",
+    technique="Lean 4 proof by simulation of two state machines + differential correspondence",
+    design="§5 C03")
+
 PENDING = {
 }
 
